@@ -904,8 +904,8 @@ theorem js_spec (e0 : Env) (inv0 : GInv e0.g) (plain : Plain e0.g) (adopt : Bool
         unfold onSuccess; rw [hbe]; simp only [plain.noDeps b bm hbm, Bool.false_eq_true, if_false]
       rw [hso]
       obtain ⟨c1, c2, c3, _, c5⟩ := runCommand_frame e b
-      have hdisc : (runCommand e b).disc = e.disc := by unfold runCommand; rw [hbe]
-      have hcache : (runCommand e b).cache = e.cache := by unfold runCommand; rw [hbe]
+      have hdisc : (runCommand e b).disc = e.disc := by unfold runCommand; rw [hbe]; simp only []; split <;> rfl
+      have hcache : (runCommand e b).cache = e.cache := by unfold runCommand; rw [hbe]; simp only []; split <;> rfl
       refine js_record e0 inv0 plain b bm hbm j hnd hanc da c3 c1 c2 hdisc hcache ?_
       intro f hf hfo
       unfold mtimeOf
